@@ -301,6 +301,7 @@ func (st *StateTransition) refundGas(refundQuotient uint64) {
 	if refund > st.state.GetRefund() {
 		refund = st.state.GetRefund()
 	}
+	verifObserveRefund(st.gasUsed(), st.state.GetRefund(), refund, st.gas+refund)
 	st.gas += refund
 
 	if st.SenderPaidTheFee {
